@@ -100,6 +100,12 @@ TypeOK == art = None \/ art.kind = "source" \/ (art.kind = "image" /\ art.enc \i
 Monotone == [][(art.kind = "image" /\ art'.kind = "image") =>
                  /\ (art'.imports => art.imports) /\ (art'.srcinfo => art.srcinfo) /\ (art'.marked => art.marked) /\ (art'.opts => art.opts)
                  /\ art'.sel = art.sel /\ art'.origin = art.origin]_vars
+\* the custom options only disappear through one of the named deviations
+OptionsOnlyLostByDeviation == [][(art.kind = "image" /\ art'.kind = "image" /\ art.opts /\ ~art'.opts) => last'.deviation # "ok"]_vars
+\* a complete artifact can always be read and written in every encoding without loss
+CompleteIsLossless == (art.kind = "image" /\ Complete(art)) => (DefsInside(art) /\ ReadOutcome(art) = "ok" /\ \A e \in Encodings : WriteOutcome(art, e) = "ok")
+\* the whole-workspace selection and export-built images contain the option definitions: no deviation ever applies to them
+DeviationsNeedExcludedImports == (art.kind = "image" /\ ~art.opts) => (art.sel = "module" /\ art.origin = "tree" /\ ~art.imports)
 View == art
 EmitEdge == Emit => PrintT(<<"EDGE", ToJson([from |-> art, op |-> last', to |-> art'])>>)
 EmitState == Emit => PrintT(<<"STATE", ToJson([art |-> art, ops |-> Observable])>>)
